@@ -160,6 +160,10 @@ func TestProp(t *testing.T) {
 			os.WriteFile("dumpcase.json", rf, 0o644)
 		}
 		res := eng.Exec(t, c)
+		if *fDump != "" && strconv.FormatUint(hashBytes(cj), 16) == *fDump {
+			rj, _ := json.MarshalIndent(res, "", " ")
+			os.WriteFile("dumpres.json", rj, 0o644)
+		}
 		if failClass == "" { // exploring (not shrinking): account
 			a.add(cj, res)
 			if *fDet > 0 && len(a.out.TraceHashes) < *fDet {
